@@ -18,7 +18,7 @@ from hugr.build.dfg import DP, DfBase
 
 from guppylang_internals.ast_util import AstNode, AstVisitor, get_type
 from guppylang_internals.cfg.builder import tmp_vars
-from guppylang_internals.checker.core import Variable, contains_subscript
+from guppylang_internals.checker.core import Place, Variable, contains_subscript
 from guppylang_internals.checker.errors.generic import UnsupportedError
 from guppylang_internals.compiler.core import (
     DEBUG_EXTENSION,
@@ -255,10 +255,20 @@ class ExprCompiler(CompilerBase, AstVisitor[Wire]):
             return self.builder.load(value)
         raise InternalGuppyError("Unsupported constant expression in compiler")
 
-    def visit_PlaceNode(self, node: PlaceNode) -> Wire:
-        if subscript := contains_subscript(node.place):
+    def bind_subscript_items(self, place: Place) -> None:
+        """Binds the index temporaries of all subscripts occurring in a place.
+
+        Indices of nested subscripts like `xs[i][j]` are evaluated from the inside out,
+        i.e. `i` before `j`, matching Python's evaluation order.
+        """
+        if subscript := contains_subscript(place):
+            self.bind_subscript_items(subscript.parent)
             if subscript.item not in self.dfg:
                 self.dfg[subscript.item] = self.visit(subscript.item_expr)
+
+    def visit_PlaceNode(self, node: PlaceNode) -> Wire:
+        if subscript := contains_subscript(node.place):
+            self.bind_subscript_items(subscript)
             self.dfg[subscript] = self.visit(subscript.getitem_call)
         return self.dfg[node.place]
 
